@@ -293,6 +293,11 @@ impl Watcher {
                     "The appointment contained invalid data {}",
                     appointment.locator()
                 );
+                // If this was an update, the version it replaces has to go too: the user has been charged for
+                // the new one, and keeping the old one around would let them hold slots they are not paying for.
+                if self.dbm.lock().unwrap().appointment_exists(uuid) {
+                    self.gatekeeper.delete_appointments(vec![uuid], false);
+                }
                 TriggeredAppointment::Invalid
             }
         }
